@@ -172,5 +172,9 @@ def corpus_basic():
         mrow(mi("α"), mo("+"), mi("β"), mo("="), mi("γ")),
         mrow(el("msup", mi("e"), mrow(mi("i"), mi("π"))), mo("+"), mn("1"), mo("="), mn("0")),
         mrow(mi("f"), mo("⁡"), mrow(mo("("), mi("x"), mo(","), mi("y"), mo(")"))),
+        # three rows, and two tables in one expression (several row separators in the linear braille codes)
+        mrow(mo("("), el("mtable", el("mtr", el("mtd", mi("a"))), el("mtr", el("mtd", mi("b"))), el("mtr", el("mtd", mi("c")))), mo(")")),
+        mrow(mrow(mo("["), el("mtable", el("mtr", el("mtd", mn("1")), el("mtd", mn("2"))), el("mtr", el("mtd", mn("3")), el("mtd", mn("4")))), mo("]")), mo("+"),
+             mrow(mo("("), el("mtable", el("mtr", el("mtd", mi("x"))), el("mtr", el("mtd", mi("y")))), mo(")"))),
     ]
     return [math(e) for e in c]
